@@ -385,17 +385,9 @@ def run(ctx):
     outs = dr.calls('out')
     first = outs[0].args[0].string if outs else None
     r3.check(bool(first) and first[0] == 'Z', 'dropped-reports-Z', '%s:%d' % (dr.unit, dr.line), 'dropped() first output is %r' % first)
-    dup = [c for c in outs if c.args[0].string and 'duplicate' in c.args[0].string.lower()]
-    okd = bool(dup)
-    flag = None
-    for c in dup:
-        g = dr.guards(c) or []
-        hit = [cc for cc, t in g if branch_zero_test(cc, t, lambda v: (v.path() or '').startswith('G:')) == 'nonzero']
-        okd = okd and bool(hit)
-        if hit:
-            from qv.lib import _cmp_parts
-            flag = _cmp_parts(hit[0])[0].path()
-    r3.check(okd, 'possible-duplicate-iff-the-critical-flag', '%s:%d' % (dr.unit, dr.line), 'the duplicate warning must be guarded by the flag that marks the window after the final dot')
+    from rules.C06 import critical_flag
+    flag = critical_flag(prog, dr)
+    r3.check(flag is not None, 'possible-duplicate-iff-the-critical-flag', '%s:%d' % (dr.unit, dr.line), 'the duplicate warning must be guarded by the flag that marks the window after the final dot')
     r3.check(dr.noreturn, 'dropped-noreturn', '%s:%d' % (dr.unit, dr.line), 'dropped() must not return')
     if flag is None:
         raise AnalysisBroken('dropped(): the flag guarding the duplicate warning was not identified')
@@ -407,11 +399,13 @@ def run(ctx):
     for x in clears:
         after = [c for c in smtp.calls('smtpcode') if smtp.dominates(bl[0], c) and smtp.dominates(c, x)]
         r3.check(x.args[1].const == 0 and bool(after), 'critical-flag-cleared-after-final-reply', x.where, 'the flag is cleared before the reply to the final dot was read')
+    from qv.lib import unit_callees
     blf = prog.fn('blast', 'qmail-remote.c')
-    sets1 = [x for x in blf.all_x() if x.k == 'asg' and x.args[0].path() == flag and x.args[1].const == 1]
+    allowed_fns = {f.name for f in unit_callees(prog, blf)} | {f.name for f in unit_callees(prog, smtp) if f.name not in ('dropped', 'quit')}
+    sets1 = [x for f in unit_callees(prog, blf) for x in f.all_x() if x.k == 'asg' and x.args[0].path() == flag and x.args[1].const == 1]
     r3.check(bool(sets1), 'critical-flag-set-in-blast', blf.unit + ':blast', 'blast() does not set the flag before the final dot')
     for fn in prog.functions():
-        if fn.unit != 'qmail-remote.c' or fn.name in ('smtp', 'blast'):
+        if fn.unit != 'qmail-remote.c' or fn.name in allowed_fns:
             continue
         for x in fn.all_x():
             if x.k == 'asg' and x.args[0].path() == flag:
